@@ -79,10 +79,16 @@ Definition st_sym (s0 s : state) (q : request) (th : thread) : Prop :=
   if rq_dry q then core_same s0 s
   else if b_pre (t_pc th) then core_same s0 s
   else match t_pc th with
-       | PTxid => v_batch s = None
-       | PChained => v_batch s = None /\ exists e, t_entry th = Some e
-       | PAppended => exists e, t_entry th = Some e /\ v_batch s = Some [e]
-       | PWait => exists e, t_entry th = Some e /\ (entry_persisted (persisted s) e = true \/ v_batch s = Some [e])
+       | PTxid => v_batch s = None /\ v_pending s = [] /\ persisted s = persisted s0 /\ v_uid s = v_uid s0
+       | PChained => v_batch s = None /\ v_pending s = [] /\ persisted s = persisted s0 /\
+                     exists e, t_entry th = Some e /\ e_uid e = v_uid s0
+       | PAppended => v_pending s = [] /\ persisted s = persisted s0 /\
+                      exists e, t_entry th = Some e /\ e_uid e = v_uid s0 /\ v_batch s = Some [e]
+       | PWait => v_pending s = [] /\ v_cs s = None /\
+                  exists e, t_entry th = Some e /\
+                    ((persisted s = persisted s0 /\ e_uid e = v_uid s0 /\ v_batch s = Some [e]) \/
+                     (entry_persisted (persisted s) e = true /\ v_batch s = None))
+       | PDone | PUnlocked | PFinished => v_pending s = [] /\ v_cs s = None /\ v_batch s = None
        | _ => True
        end.
 
@@ -141,6 +147,7 @@ Record SI (s0 : state) (t : tid) (q : request) (s : state) (th : thread) : Prop 
   si_revs : v_revs s = if b_rev (t_pc th) && is_rev q then [rq_revert q] else [];
   si_locks : v_locks s = if b_lock (t_pc th) && is_tx_kind (rq_kind q)
                          then [(t, reads_of (t_postings th), writes_of (t_postings th))] else [];
+  si_fresh : rq_dry q = false -> forall x, In x (persisted s0) -> (e_uid x < v_uid s0)%nat;
   si_st : st_sym s0 s q th;
   si_sym : th_sym (persisted s0) (v_lasttx s0) q th
 }.
@@ -184,6 +191,13 @@ Proof.
   destruct (t_pc th); try lia. destruct (t_entry th); try lia. destruct (entry_persisted _ _); lia.
 Qed.
 
+Lemma fresh_not_persisted : forall log e n,
+  (forall x, In x log -> (e_uid x < n)%nat) -> e_uid e = n -> entry_persisted log e = false.
+Proof.
+  intros log e n H Hn. unfold entry_persisted. destruct (existsb _ log) eqn:E; [|reflexivity].
+  apply existsb_exists in E. destruct E as (x & Hin & Hx). apply Nat.eqb_eq in Hx. specialize (H x Hin). lia.
+Qed.
+
 Lemma entry_persisted_app : forall log e, entry_persisted (log ++ [e]) e = true.
 Proof.
   intros log e. unfold entry_persisted. rewrite existsb_app. simpl. rewrite Nat.eqb_refl. rewrite orb_true_r. reflexivity.
@@ -207,6 +221,7 @@ Ltac facts :=
   | H : exists _, _ |- _ => destruct H
   | H : ?a = ?b -> _, H' : ?a = ?b |- _ => specialize (H H')
   | H : true = true -> _ |- _ => specialize (H eq_refl)
+  | H : false = false -> _ |- _ => specialize (H eq_refl)
   | H : _ :: _ <> [] -> _ |- _ => specialize (H ltac:(discriminate))
   | H : ?c = _, H' : context [match ?c with _ => _ end] |- _ => rewrite H in H'; d_cbn
   end.
@@ -243,13 +258,16 @@ Lemma si_step : forall s0 t q s th, SI s0 t q s th -> t_pc th <> PFinished ->
   | None => False
   end.
 Proof.
-  intros s0 t q s th [Hget Hreq Hgen Hgen0 Hoth Hq Hiks Hrefs Hrevs Hlocks Hst Hsym] Hnf.
+  intros s0 t q s th [Hget Hreq Hgen Hgen0 Hoth Hq Hiks Hrefs Hrevs Hlocks Hfresh Hst Hsym] Hnf.
   subst q. unfold next, resume, persist_ok. rewrite Hget, Hgen, Nat.eqb_refl. cbn [negb]. cbv zeta.
   unfold st_sym, th_sym in *.
   destruct (rq_dry (t_req th)) eqn:Hdry; destruct (t_pc th) eqn:Hpc; d_cbn; try contradiction; try congruence;
   unfold P_late, P_run, P_txid, P_ik, P_ref, P_rev, qcov, core_same in *;
   repeat match goal with H : _ /\ _ |- _ => destruct H | H : exists _, _ |- _ => destruct H | H : _ \/ _ |- _ => destruct H end.
   all: repeat match goal with H : ?v = _ |- _ => is_var v; subst v end.
+  all: facts.
+  all: try match goal with Hu : e_uid ?e = v_uid ?s0, Hp : persisted ?s = persisted ?s0, Hf : forall x, In x (persisted ?s0) -> _ |- _ =>
+             assert (entry_persisted (persisted s) e = false) by (rewrite Hp; apply (fresh_not_persisted _ _ _ Hf Hu)) end.
   all: try match goal with H : t_postings _ = _ |- _ => rewrite H in Hlocks end.
   all: try match goal with H : t_postings _ = _ |- _ => rewrite ?H end.
   all: try match goal with H : t_unb _ = _ |- _ => rewrite ?H end.
@@ -277,12 +295,13 @@ Proof.
 Qed.
 
 Lemma si_start : forall s0 t q, quiescent s0 -> get_thread (threads s0) t = None ->
+  (rq_dry q = false -> forall x, In x (persisted s0) -> (e_uid x < v_uid s0)%nat) ->
   match start s0 t q with
   | Some s1 => exists th, SI s0 t q s1 th
   | None => False
   end.
 Proof.
-  intros s0 t q (Qp & Qb & Qi & Qr & Qv & Ql & Qq & Qc & Qt) Hnone.
+  intros s0 t q (Qp & Qb & Qi & Qr & Qv & Ql & Qq & Qc & Qt) Hnone Hfresh.
   unfold start. rewrite Hnone. cbv zeta. rewrite Qv.
   destruct (rq_dry q) eqn:Hdry.
   all: repeat head_step.
@@ -322,22 +341,49 @@ Proof.
     destruct Hs as (th' & HSI' & Hlt). apply (IH s0 t q s' th' HSI'). lia.
 Qed.
 
+Definition fresh_uid (s : state) : Prop := forall x, In x (persisted s) -> (e_uid x < v_uid s)%nat.
+
 Lemma si_submit : forall s0 t q, quiescent s0 -> get_thread (threads s0) t = None ->
+  (rq_dry q = false -> fresh_uid s0) ->
   exists th, SI s0 t q (submit s0 t q) th /\ t_pc th = PFinished.
 Proof.
-  intros s0 t q Hq Hn. unfold submit. pose proof (si_start s0 t q Hq Hn) as Hs.
+  intros s0 t q Hq Hn Hf. unfold submit. pose proof (si_start s0 t q Hq Hn Hf) as Hs.
   destruct (start s0 t q) as [s1|]; [|contradiction]. destruct Hs as (th & HSI).
   apply (si_drive 64 s0 t q s1 th HSI). pose proof (rank_bound s1 th). lia.
 Qed.
 
 (* ---- C14: the preview is a stutter step, and answers what the real write answers ------------------------------------ *)
 Theorem e3_answer : forall s t q, quiescent s -> get_thread (threads s) t = None ->
+  (rq_dry q = false -> fresh_uid s) ->
   exists th, get_thread (threads (submit s t q)) t = Some th /\
              t_resp th = Some (answer (persisted s) (v_lasttx s) q).
 Proof.
-  intros s t q Hq Hn. destruct (si_submit s t q Hq Hn) as (th & HSI & Hpc).
+  intros s t q Hq Hn Hf. destruct (si_submit s t q Hq Hn Hf) as (th & HSI & Hpc).
   exists th. split; [exact (si_get _ _ _ _ _ HSI)|].
   pose proof (si_sym _ _ _ _ _ HSI) as H. unfold th_sym in H. rewrite Hpc in H. exact H.
+Qed.
+
+(* any request submitted alone in a quiescent state leaves a quiescent state, touches no other table entry *)
+Theorem e3_submit_quiescent : forall s t q, quiescent s -> get_thread (threads s) t = None ->
+  (rq_dry q = false -> fresh_uid s) ->
+  quiescent (submit s t q) /\ gen (submit s t q) = gen s /\
+  (forall w, w <> t -> get_thread (threads (submit s t q)) w = get_thread (threads s) w) /\
+  (exists th, get_thread (threads (submit s t q)) t = Some th /\ t_pc th = PFinished).
+Proof.
+  intros s t q Hq Hn Hf. destruct (si_submit s t q Hq Hn Hf) as (th & HSI & Hpc).
+  destruct HSI as [Hget Hreq Hgen Hgen0 Hoth Hqu Hiks Hrefs Hrevs Hlocks Hfresh Hst Hsym].
+  rewrite Hpc in Hiks, Hrefs, Hrevs, Hlocks. cbn in Hiks, Hrefs, Hrevs, Hlocks.
+  destruct Hq as (Qp & Qb & Qi & Qr & Qv & Ql & Qq & Qc & Qt).
+  assert (Hcore : v_pending (submit s t q) = [] /\ v_cs (submit s t q) = None /\ v_batch (submit s t q) = None).
+  { unfold st_sym in Hst. rewrite Hpc in Hst. cbn in Hst. destruct (rq_dry q).
+    - destruct Hst as (C1 & C2 & C3 & C4 & C5 & C6 & C7 & C8). auto.
+    - exact Hst. }
+  destruct Hcore as (C4 & C6 & C5).
+  split; [|split; [exact Hgen0|split; [exact Hoth|exists th; auto]]].
+  unfold quiescent. rewrite C4, C5, C6, Hiks, Hrefs, Hrevs, Hlocks, Hqu. repeat split; try reflexivity.
+  intros w thw Hw. destruct (Nat.eq_dec w t) as [->|Hne].
+  - rewrite Hget in Hw. inversion Hw; subst thw. exact Hpc.
+  - rewrite (Hoth w Hne) in Hw. eapply Qt; eauto.
 Qed.
 
 Theorem e3_stutter : forall s t q, quiescent s -> get_thread (threads s) t = None -> rq_dry q = true ->
@@ -346,18 +392,17 @@ Theorem e3_stutter : forall s t q, quiescent s -> get_thread (threads s) t = Non
   (forall w, w <> t -> get_thread (threads (submit s t q)) w = get_thread (threads s) w) /\
   (exists th, get_thread (threads (submit s t q)) t = Some th /\ t_pc th = PFinished).
 Proof.
-  intros s t q Hq Hn Hdry. destruct (si_submit s t q Hq Hn) as (th & HSI & Hpc).
-  destruct HSI as [Hget Hreq Hgen Hgen0 Hoth Hqu Hiks Hrefs Hrevs Hlocks Hst Hsym].
+  intros s t q Hq Hn Hdry.
+  assert (Hf : rq_dry q = false -> fresh_uid s) by (intros D; congruence).
+  destruct (e3_submit_quiescent s t q Hq Hn Hf) as (Q1 & Q2 & Q3 & Q4).
+  destruct (si_submit s t q Hq Hn Hf) as (th & HSI & Hpc).
+  destruct HSI as [Hget Hreq Hgen Hgen0 Hoth Hqu Hiks Hrefs Hrevs Hlocks Hfresh Hst Hsym].
   unfold st_sym in Hst. rewrite Hdry in Hst. destruct Hst as (C1 & C2 & C3 & C4 & C5 & C6 & C7 & C8).
   rewrite Hpc in Hiks, Hrefs, Hrevs, Hlocks. cbn in Hiks, Hrefs, Hrevs, Hlocks.
   destruct Hq as (Qp & Qb & Qi & Qr & Qv & Ql & Qq & Qc & Qt).
-  split; [|split; [|split; [exact Hgen0|split; [exact C7|split; [exact Hoth|exists th; auto]]]]].
-  - unfold observe. rewrite C1, C2, C3, C4, C5, C6, C8, Hiks, Hrefs, Hrevs, Hlocks, Hqu, Qp, Qb, Qi, Qr, Qv, Ql, Qq, Qc.
-    reflexivity.
-  - unfold quiescent. rewrite C4, C5, C6, Hiks, Hrefs, Hrevs, Hlocks, Hqu. repeat split; try reflexivity.
-    intros w thw Hw. destruct (Nat.eq_dec w t) as [->|Hne].
-    + rewrite Hget in Hw. inversion Hw; subst thw. exact Hpc.
-    + rewrite (Hoth w Hne) in Hw. eapply Qt; eauto.
+  split; [|split; [exact Q1|split; [exact Q2|split; [exact C7|split; [exact Q3|exact Q4]]]]].
+  unfold observe. rewrite C1, C2, C3, C4, C5, C6, C8, Hiks, Hrefs, Hrevs, Hlocks, Hqu, Qp, Qb, Qi, Qr, Qv, Ql, Qq, Qc.
+  reflexivity.
 Qed.
 
 Definition with_dry (q : request) (b : bool) : request :=
@@ -367,13 +412,13 @@ Definition with_dry (q : request) (b : bool) : request :=
 Lemma answer_with_dry : forall log ltx q b, answer log ltx (with_dry q b) = answer log ltx q.
 Proof. reflexivity. Qed.
 
-Theorem e3_answer_same : forall s t q, quiescent s -> get_thread (threads s) t = None ->
+Theorem e3_answer_same : forall s t q, quiescent s -> get_thread (threads s) t = None -> fresh_uid s ->
   exists th th', get_thread (threads (submit s t (with_dry q true))) t = Some th /\
                  get_thread (threads (submit s t (with_dry q false))) t = Some th' /\
                  t_resp th = t_resp th' /\ t_resp th = Some (answer (persisted s) (v_lasttx s) q).
 Proof.
-  intros s t q Hq Hn.
-  destruct (e3_answer s t (with_dry q true) Hq Hn) as (th & G & R).
-  destruct (e3_answer s t (with_dry q false) Hq Hn) as (th' & G' & R').
+  intros s t q Hq Hn Hf.
+  destruct (e3_answer s t (with_dry q true) Hq Hn (fun _ => Hf)) as (th & G & R).
+  destruct (e3_answer s t (with_dry q false) Hq Hn (fun _ => Hf)) as (th' & G' & R').
   exists th, th'. rewrite answer_with_dry in R, R'. repeat split; auto. congruence.
 Qed.
